@@ -41,6 +41,12 @@ def main(tier, seed):
     run.assumptions += ["typed host functions are real fn pointers registered through into_f1..into_f4 (arity 1-4, parameter types i64, f64, bool, &str, Value, "
                         "&CaoLangTable, Nilable<i64>); re-entering host functions report the balance of value stack and call stack around run_function",
                         "when several arguments are rejected the error may name any of them"]
+    # instruction-level conformance: after a host call (and after a re-entry into the interpreter) the value stack holds what it
+    # held before, minus the host function's parameters, plus one result, and the call frames are those of the caller
+    instr_conformance(run, ["host", "std"], 40 if tier != "thorough" else 300, seed, "C18-instr",
+                      lambda m: m.get("event", {}).get("e") in ("Reenter", "ReenterEnd") or
+                      m.get("after", {}).get("op") in ("CallNative", "CallFunction") or
+                      (m.get("event", {}).get("d", 1) > 1 and m.get("after", {}).get("op") == "Return"))
     return run.finish("model_checking",
                       "generated programs calling typed host functions (through CallNative cards and through native function values) with convertible "
                       "and non-convertible arguments, and host functions that re-enter script functions, closures and native function values (also "
